@@ -475,3 +475,28 @@ def rule_eof_only_at_block_boundary(cx):
                  "Reader::next reports a clean end-of-log (UnexpectedEof) after it has already parsed a record header: a damaged/torn record is mistaken for the end of the log, "
                  "recovery silently drops it (also in absolute-consistency mode) and later appends land behind it")
         cx.check(b.set_dominates([c.bb for c in rm], i), "end-of-log is reported only after trying to read more bytes", "eof-without-read", "%s:%d" % (b.file, line))
+
+
+def rule_delete_tables_after_manifest(cx):
+    """merged-away table files are deleted only after the manifest that no longer lists them is on disk"""
+    f = cx.f
+    cs = f.callers_of("Compactor::cleanup_old_tables")
+    cx.floor("cleanup_old_tables call sites", len(cs), 1)
+    W = {"levels::write_manifest_to_disk"}
+    for c in cs:
+        b = c.body
+        pre = [x for x in b.calls if x.bb in b.live and x is not c and f.call_must_reach(x, W)]
+        ok = bool(pre) and b.set_dominates([x.bb for x in pre], c.bb)
+        # and not on the failure continuation of that step
+        if ok:
+            for x in pre:
+                e = result_edges(b, x)
+                if e is not None and c.bb in feasible_reach(b, e[1]):
+                    ok = False
+        cx.check(ok, "`%s` deletes merged input tables only after the new manifest was written successfully" % f.fn_of(b).id, "delete-before-manifest|%s" % f.fn_of(b).id, c.where(),
+                 "`%s` deletes the merged input table files before (or regardless of whether) the manifest that stops referencing them reached the disk: a failed manifest write or a crash "
+                 "in between leaves a manifest that lists missing tables and the store cannot be reopened" % f.fn_of(b).id)
+    cb = f.body("Compactor::cleanup_old_tables")
+    rm = sites(cx, cb, "std::fs::remove_file")
+    o = origin_of_operand(cb, rm[0].args[0], through_calls="all")
+    cx.check(o.from_call("Options::sstable_file_path") and "tables_to_merge" in o.field_names(), "cleanup_old_tables removes exactly the merged inputs' files", "cleanup-old-tables-target", rm[0].where())
